@@ -25,8 +25,10 @@ INBODY_DEF = [ForAll([sq, x], InBody(sq, x) == Exists([k_], And(0 <= k_, k_ < Le
 W.axioms += [INBODY_DEF[0],
              ForAll([sq], NoEps(sq) == ForAll([x], Implies(InBody(sq, x), Not(isEps(x))))),
              ForAll([x], Implies(isEps(x), Not(isVar(x)))),
-             # exists-introduction for the definition of InBody above, with a trigger on the indexing term
-             ForAll([sq, k_], Implies(And(0 <= k_, k_ < Length(sq)), InBody(sq, sq[k_])), patterns=[sq[k_]])]
+             # exists-introduction for the definition of InBody above (no explicit trigger: z3 rewrites seq.nth before matching, a pattern
+             # written with it never fires - DESIGN A.6)
+             ForAll([sq, k_], Implies(And(0 <= k_, k_ < Length(sq)), InBody(sq, sq[k_])))]
+INBODY_INTRO = W.axioms[-1]; W.derived = [('InBody introduction', INBODY_DEF, INBODY_INTRO)]
 W.consts['None'] = NONE_SYM
 W.seq_literals = {PStk}
 W.seq_reverse = lambda term: C.Rev(term)                            # body[::-1] (not used by the current source; keeps such an edit inside the subset)
@@ -129,7 +131,7 @@ def WFIDX(G):
 def TP_PRE(G): return And(WF(G), ForAll([x], Implies(G.Tm[x], Not(isEps(x)))))
 W.contract(Contract('CFG.to_pda', [('self', CFGT)], ret=PDA, fresh_result=True, requires=lambda o: TP_PRE(o.self),
     ensures=lambda o, r, n: tp_struct(r, o.self, lambda p_: o.self.P[p_], lambda t_: o.self.Tm[t_]),
-    entry_lemmas=lambda o: [('WF by position', INBODY_DEF, WFIDX(o.self))],
+    entry_lemmas=lambda o: [('WF by position', INBODY_DEF + [INBODY_INTRO], WFIDX(o.self))],
     loops={'0': lambda e, done: tp_struct(e.new_pda, e.self, lambda p_: done[p_], lambda t_: BoolVal(False)),
            '1': lambda e, done: tp_struct(e.new_pda, e.self, lambda p_: e.self.P[p_], lambda t_: done[t_])}))
 
